@@ -691,7 +691,7 @@ theorem copyRef_sim (hS : TwStatic X Xu h0) :
           simp only [hS.dncu, hS.nodnc c, hS.postCopy]
           refine (Tw.alloc _).bind (fun j' j hj => ?_)
           obtain ⟨rfl, hj0, hjO, hjP⟩ := hj
-          refine (copyFields_sim _ _ ih (X.cd c) (Xu.cd c) (hS.attr? c) j c thaw hj0 hjO hjP fs [] m
+          refine (copyFields_sim _ _ ih (X.cd c) (Xu.cd c) (hS.attr? c) j c false hj0 hjO hjP fs [] m
             (fun kv hkv => hrefs kv.2 (List.mem_map.2 ⟨kv, hkv, rfl⟩))).bind (fun m1 m1u hm1 => ?_)
           cases hm1
           have hpc : Tw X.T h0 O P (if (X.cd c).postCopy = true then callCb .postCopy else pure ())
